@@ -199,6 +199,12 @@ def rule_kept_in_place(check):
             v_ = hir.pat_variant(a_["pat"])
             vs_ = {str(x).split("::")[-1] for x in (v_ if isinstance(v_, tuple) else (v_,))}
             calls_ = {(hir.callee_name(x) or x.get("method")) for x in hir.walk(a_["body"]) if hir.is_call(x)}
+            # ... and what the crate helpers the arm is split into call
+            for x in [x for x in hir.walk(a_["body"]) if hir.is_call(x)]:
+                h0_ = prog.resolve_local(x)
+                if h0_ is not None and h0_ is not fo and h0_.body is not None and (hir.callee_name(x) or x.get("method")) not in hoisters:
+                    for hh_ in prog.flat(h0_, 2):
+                        calls_ |= {(hir.callee_name(y) or y.get("method")) for y in hir.walk(hh_.body) if hir.is_call(y)}
             if calls_ & hoisters:
                 # the arm may hoist; helpers it goes through decide (checked by EFFECT / IDENT-MODE)
                 inner_h = [prog.resolve_local(x) for x in hir.walk(a_["body"]) if hir.is_call(x)]
@@ -1682,6 +1688,44 @@ def rule_optchain_lowering(check):
         atoms = gate.atoms_at(f, x)
         ok = any(a[0] == "compound" for a in atoms) or any(a[0] == "call" and a[1] in ("is_empty", "is_none") and a[4] is True for a in atoms) or any(_ident_pat(c) is not None for c in f.conds_at(x))
         check.expect(ok, R, R + "/not-modified", hir.loc(x), "not modified when nothing was extracted", "to_dd_cond_expr reports not-modified under other conditions")
+
+
+def rule_optchain_link_flag(check):
+    """OPTCHAIN-LINK-FLAG: a link of an optional chain is `?.` or `.` according to the `optional` flag of its
+    OptChainExpr node; code that builds output from the `base` of such a node without looking at the flag turns
+    `a?.b` into `a.b` (TypeError on a nullish `a` where the input short-circuits to undefined)."""
+    R = "OPTCHAIN-LINK-FLAG"
+    check.rule(R, "in the lowering helpers of the optional-chain visitor (the functions that build the replacement call / member), an OptChainExpr is never taken apart (`.base`, or the payload of an `Expr::OptChain(..)` pattern) without its `optional` flag being read in the same function: nested links are left to the visitor's own dispatch, which handles the flag")
+    prog = check.prog
+    n_fn = 0
+    for g in prog.user_fns:
+        if g.body is None or g.rec.get("gen") or not (g.rec.get("self_ty") or "").split("<")[0].endswith("OptChainVisitor"):
+            continue
+        builder = not (g.name or "").startswith("visit_") and (g.rec.get("ret") or "()").strip() not in ("bool", "()")
+        if not builder:
+            continue  # (a predicate that only looks at the chain builds nothing from it)
+        n_fn += 1
+        flags = {hir.place(x["x"]) for x in g.nodes() if x.get("k") == "Field" and x["field"] == "optional" and "OptChainExpr" in (x.get("base_ty") or "")}
+        flags = {re.sub(r"^\*|^&", "", p_ or "") for p_ in flags}
+        taken = []
+        for x in g.nodes():
+            if x.get("k") == "Field" and x["field"] == "base" and "OptChainExpr" in (x.get("base_ty") or ""):
+                taken.append((x, hir.place(x["x"]) or hir.describe(x["x"])))
+        # payloads bound by `Expr::OptChain(c)` patterns (match arms, if-let, let-else)
+        pats = [a["pat"] for m in g.nodes() if m.get("k") == "Match" for a in m["arms"]] + [m["pat"] for m in g.nodes() if m.get("k") == "LetCond" and "pat" in m]
+        for pt in pats:
+            for q in hir.walk_pat(pt):
+                if str(hir.pat_variant(q)).endswith("Expr::OptChain"):
+                    for b_ in hir.pat_bindings(q):
+                        uses = [u for u in g.nodes() if hir.local_of(u) and hir.local_of(u)[0] == b_["local"]]
+                        if uses:
+                            taken.append((uses[0], "%s#%d" % (b_["name"], b_["local"])))
+        for x, pl in taken:
+            pl_ = re.sub(r"^\*|^&", "", pl or "")
+            ok = any(f_ == pl_ or f_.split(".")[0] == pl_.split(".")[0] for f_ in flags)
+            check.expect(ok, R, "%s/%s/%s" % (R, g.name, re.sub(r"#\d+", "", pl_)), hir.loc(x), "the flag of the link is read where the link is taken apart", "%s takes the optional-chain link `%s` apart without reading its `optional` flag: an optional link `a?.b` of the input is rebuilt as the plain `a.b`, which throws on a nullish `a` where the input gives undefined" % (g.name, re.sub(r"#\d+", "", pl_)))
+    check.floor(R, "lowering helpers of the optional-chain visitor", n_fn, 2)
+    check.ok(R, R + "/scan", "-", "%d lowering helpers scanned" % n_fn)
 
 
 def rule_fresh_temp(check):
